@@ -234,6 +234,9 @@ class SymArray:
         if isinstance(k, tuple):
             kk = tuple(self._key(x, self.a.shape[i] if i < self.a.ndim else None) for i, x in enumerate(k))
             if builtins.any(isinstance(x, tuple) for x in kk):
+                # arr[:, symidx]  ->  gather along axis 1
+                if len(kk) == 2 and isinstance(kk[0], slice) and kk[0] == slice(None) and isinstance(kk[1], tuple) and self.a.ndim == 2:
+                    return SymArray(self.a.T, self.dtype)._gather(kk[1][1]).T
                 raise UnsupportedByShim("symbolic integer index inside a tuple index")
         else:
             kk = self._key(k, self.a.shape[0] if self.a.ndim else None)
@@ -705,6 +708,8 @@ def isfinite(x):
     """Symbolic reals are finite by construction; non-finite cells are modelled by the harness as
     NonFinite marker objects or float nan/inf."""
     def cell(c):
+        if isinstance(c, FinCell):
+            return c.flag
         if is_sym(c):
             return True
         if isinstance(c, NonFinite):
@@ -736,6 +741,17 @@ class NonFinite:
 
     def __repr__(self):
         return "NonFinite(%s)" % self.kind
+
+
+class FinCell(SN):
+    """a real cell with a symbolic 'is finite' flag: value `e` when the flag holds, some non-finite
+    float otherwise.  Arithmetic uses the value (the code under test is expected to filter on
+    isfinite first; VCs only speak about cells whose flag holds)."""
+    __slots__ = ("flag",)
+
+    def __init__(self, e, flag):
+        SN.__init__(self, e)
+        self.flag = flag
 
 
 class MaybeFinite:
